@@ -49,7 +49,36 @@ func c40IntersectT[K int8 | uint8 | int64 | uint64](c c40Case, r *ev.Rec) error 
 				wantDisjoint = false
 			}
 		}
-		got := m.Insert(s, e, i)
+		// Known finding "intersect-gap-adjacent": an insert that covers two entries that are adjacent
+		// (prev.End+1 == next.Start) makes Insert add an empty entry that replaces the left one.
+		// Entry boundaries are exactly the boundaries induced by earlier interval ends, so the
+		// trigger is decided on the model alone.
+		gap := false
+		for _, q := range model {
+			for _, p := range []K{q.e, q.s - 1} {
+				if (p == q.s-1 && q.s == minOf[K]()) || p == maxOf[K]() {
+					continue
+				}
+				if !(s <= p && p < e) {
+					continue
+				}
+				covL, covR := false, false
+				for _, w := range model {
+					covL = covL || (w.s <= p && p <= w.e)
+					covR = covR || (w.s <= p+1 && p+1 <= w.e)
+				}
+				gap = gap || (covL && covR)
+			}
+		}
+		if gap {
+			if r.Known("intersect-gap-adjacent", fmt.Sprintf("history %v", c.Ins[:i+1])) {
+				// excluded by construction: this insert is not applied (neither to the map nor to the
+				// model) and the history carries on, so the search continues behind the finding.
+				r.Label("skipped-insert=intersect-gap-adjacent")
+				continue
+			}
+		}
+		got := m.Insert(s, e, len(model))
 		if got != wantDisjoint {
 			return fmt.Errorf("Insert #%d [%v,%v] returned disjoint=%v, model says %v; history %v", i, s, e, got, wantDisjoint, c.Ins)
 		}
